@@ -41,6 +41,10 @@ package main
 //                           the BoolReader model with the probability function of the parsed header, on (i) the frames above,
 //                           (ii) real webp.Encode output over the option grid, (iii) plan-writer frames (gen_vp8.go);
 //                           on (i) also as a property of the real code: parseIntraModeRow returns the modes writeMBModes wrote
+//   boolbatch <b:bit:prob,…>  the statement-level model of PutBitBatchPacked (Webp.Impl.BoolCoderFast) vs the real one, same sequences
+//   fastrun <hex> <g:p|s,…>   the inlined reader of decode_mb.go: real fastBit / fastSigned under the brLoad / brSync protocol
+//                           (hook FastRun) vs the model fastBitStep / fastSignedStep / brSync, on the reader data of the dec:* cases
+//                           (random, 0xff-prefixed, all-0x00, short: incl. runs past the end of the data)
 // Round trip on the real code alone (property findings, C06): every written sequence is read back with the
 // matching reader calls (GetBit or GetBitAlt for PutBit, GetBit(128)/GetSigned for PutBitUniform, GetValue for
 // PutBits, GetBit(128)+GetSignedValue for PutSignedBits) and must return the symbols, with eof still false.
@@ -654,6 +658,9 @@ func suiteBoolCoder(rep *Report) error {
 		if bl, ok := bcRunBatch(wops); ok {
 			rep.Count("enc:batch")
 			add("PutBitBatchPacked", "enc-batch:"+kind, wl, bl, len(wops) >= 8)
+			// ... and against the statement-level model of PutBitBatchPacked itself
+			add("BoolCoderFast", "batch-model:"+kind, "boolbatch "+bcJoinW(wops), bl, len(wops) >= 8)
+			rep.Count("enc:batch-model")
 		}
 		if rops == nil {
 			return
@@ -746,6 +753,10 @@ func suiteBoolCoder(rep *Report) error {
 		goD, _, _ := bcRunReader(data, ops)
 		add("BoolReader", "dec:"+kind, dl, goD, len(ops) >= 8)
 		rep.Count("dec:" + kind)
+		// the inlined reader of decode_mb.go on the same data: fastBit / fastSigned under brLoad / brSync
+		fl, fg := bcFastRun(data, r, r.Intn(120))
+		add("BoolCoderFast", "fastrun:"+kind, fl, fg, true)
+		rep.Count("fastrun:" + kind)
 		if goD == "panic" {
 			propFinding("C05", "boolcoder:reader-panic", "BoolReader panicked", dl)
 		}
@@ -844,7 +855,21 @@ func suiteBoolCoder(rep *Report) error {
 	if unwiredM {
 		rep.Notes = append(rep.Notes, "driver has no handler for ops bmodeprob/modeemit/modeparse (Driver.VP8ModeBytes not wired into Driver/Main.lean): mode leg skipped")
 	}
+	// ... and for Driver.BoolCoderFast (ops boolbatch, fastrun)
+	unwiredF := true
 	for i, l := range lines {
+		if l.site == "BoolCoderFast" && lean[i] != "bad-op" {
+			unwiredF = false
+			break
+		}
+	}
+	if unwiredF {
+		rep.Notes = append(rep.Notes, "driver has no handler for ops boolbatch/fastrun (Driver.BoolCoderFast not wired into Driver/Main.lean): register-cached leg skipped")
+	}
+	for i, l := range lines {
+		if unwiredF && l.site == "BoolCoderFast" {
+			continue
+		}
 		if unwired && l.site == "VP8SyntaxBytes" {
 			continue
 		}
@@ -1352,6 +1377,53 @@ func bcModeSynth(rep *Report, r *RNG, add func(site, kind, line, goL string, non
 	}
 }
 
+// ---------- the inlined reader ----------
+
+func bcFastLine(data []byte, ops []int) (line, goL string) {
+	toks := make([]string, len(ops))
+	for i, o := range ops {
+		if o < 0 {
+			toks[i] = "s"
+		} else {
+			toks[i] = fmt.Sprintf("g:%d", o)
+		}
+	}
+	body := "-"
+	if len(toks) > 0 {
+		body = strings.Join(toks, ",")
+	}
+	line = "fastrun " + hx(data) + " " + body
+	goL, _ = guard(func() string {
+		res, v, rg, bits, pos, eof := verifapi.FastRun(data, ops)
+		rs := make([]string, len(res))
+		for i, x := range res {
+			rs[i] = strconv.Itoa(x)
+		}
+		b := "-"
+		if len(rs) > 0 {
+			b = strings.Join(rs, ",")
+		}
+		return fmt.Sprintf("ok %s st=%d,%d,%d,%d,%s", b, v, rg, bits, pos, b2s(eof))
+	})
+	return
+}
+
+func bcFastRun(data []byte, r *RNG, n int) (line, goL string) {
+	ops := make([]int, n)
+	style := r.Intn(4)
+	for i := range ops {
+		if r.Intn(6) == 0 {
+			ops[i] = -1
+		} else {
+			ops[i] = bcProb(r, style)
+			if ops[i] > 255 {
+				ops[i] = 255
+			}
+		}
+	}
+	return bcFastLine(data, ops)
+}
+
 // ---------- replay ----------
 
 func replayBoolLine(in map[string]any) int {
@@ -1374,6 +1446,25 @@ func replayBoolLine(in map[string]any) int {
 			return 2
 		}
 		goL, _, _ = bcRunReader(unhx(f[1]), ops)
+	case f[0] == "boolbatch" && len(f) == 2:
+		ops, ok := bcParseWOps(f[1])
+		if !ok {
+			return 2
+		}
+		goL, _ = bcRunBatch(ops)
+	case f[0] == "fastrun" && len(f) == 3:
+		var ops []int
+		if f[2] != "-" {
+			for _, t := range strings.Split(f[2], ",") {
+				if t == "s" {
+					ops = append(ops, -1)
+				} else {
+					v, _ := strconv.Atoi(strings.TrimPrefix(t, "g:"))
+					ops = append(ops, v)
+				}
+			}
+		}
+		_, goL = bcFastLine(unhx(f[1]), ops)
 	case f[0] == "bmodeprob" && len(f) == 4:
 		t, _ := strconv.Atoi(f[1])
 		l, _ := strconv.Atoi(f[2])
